@@ -316,6 +316,49 @@ int main(void)
 		V_ASSERT(r != NULL && (int)B->values[0]->boolean == (vin_b ? 1 : 0), "[C05] a printed boolean is accepted and converts back to the same truth value");
 		V_WITNESS("stepped");
 	}
+#elif MODE == 4
+	{
+		/* an annotation of up to 3 arbitrary bytes, printed by the real cfg_opt_print_pff_indent(): whatever
+		 * comment style the printer chooses, the printed text must be ONE comment of the language followed by
+		 * the option line - "/" "*" ... "*" "/" closes at the first star-slash, "#..." and "//..." end at the
+		 * first newline */
+		V_IN_UCHAR(vin_c);
+		V_IN_UCHAR(vin_d);
+		V_IN_UCHAR(vin_e);
+		char t[4];
+		int k, end, ok = 0;
+
+		V_ASSUME(vin_c != 0);
+		t[0] = (char)vin_c;
+		t[1] = (char)vin_d;
+		t[2] = (char)(vin_d ? vin_e : 0);
+		t[3] = 0;
+		/* annotations come trimmed from the scanner: no blank at either end (so a 3-byte text cannot hold both a
+		 * line break and a star-slash - that combination, only reachable through cfg_opt_setcomment(), is outside the claim) */
+		V_ASSUME(!vm_isspace(vin_c) && !(vin_d && !vin_e && vm_isspace(vin_d)) && !(vin_d && vin_e && vm_isspace(vin_e)));
+		init_opt(O, "o", CFGT_INT, CFGF_COMMENTS);
+		alloc_values(O, 1);
+		O->values[0]->number = 1;
+		O->comment = heap_str(t);
+		cfg_opt_print_pff_indent(O, (FILE *)&lcfg, NULL, 0);
+		out[out_n] = 0;
+		/* the option line "o=1\n" ends the output; what stands before it is the printed annotation */
+		V_ASSERT(out_n >= 6 && out[out_n - 1] == '\n' && out[out_n - 2] == '1' && out[out_n - 3] == '=' && out[out_n - 4] == 'o' && out[out_n - 5] == '\n',
+			 "[C05] an annotated option is printed as its annotation, a newline, and the assignment line");
+		end = out_n - 5; /* index of the newline that ends the annotation part */
+		if (out[0] == '/' && out[1] == '*') {
+			/* the first star-slash after the opener must be the one that ends the annotation part */
+			for (k = 2; k + 1 < end && !(out[k] == '*' && out[k + 1] == '/'); k++)
+				;
+			ok = (k + 2 == end);
+		} else if (out[0] == '#' || (out[0] == '/' && out[1] == '/')) {
+			for (k = 0; k < end && out[k] != '\n'; k++)
+				;
+			ok = (k == end);
+		}
+		V_ASSERT(ok, "[C15] a printed annotation is exactly one comment of the language (it is not ended early by its own text), so that a re-parse reads it back and nothing of it is taken for configuration items");
+		V_WITNESS("stepped");
+	}
 #endif
 	V_WITNESS("end of harness");
 	return 0;
